@@ -32,14 +32,14 @@ def run(tier):
     wd = workdir("c07")
     vlib.build_harness()
     r_ = rng(7)
-    n = 60 if tier == "quick" else 1500
+    n = 60 if tier == "quick" else 500
     scs = uc.universe_scenarios(r_, wd, n, [1, 2, 2, 3, 3, 4, 5], "dual", ["only-v4", "prefer-v4", "prefer-v6", "only-v6"],
                                 True, nq=(2, 5))
     # name servers with addresses of one family only, in the modes that may fall back to the other family: every
     # zone stays reachable, so the authoritative answer is still expected
     scs += uc.universe_scenarios(r_, wd, max(20, n // 3), [2, 2, 3, 4], "mixed", ["prefer-v4", "prefer-v6"], True, nq=(2, 4),
                                  glue=r_.choice(["mixed", "out"]))
-    scs += uc.glue_expiry_scenarios(r_, wd, 16 if tier == "quick" else 300)
+    scs += uc.glue_expiry_scenarios(r_, wd, 16 if tier == "quick" else 120)
     lines, rejects = rc.run_scenarios(v, PID, wd, "tv", scs, chunk=40)
     rec.conformance(v, wd, lines)
     rec.explore(v, PID, wd, r_, tier)
